@@ -125,6 +125,29 @@ def mutation_attempts(obj):
     return out
 
 
+def reachable_mutables(obj, path="arg", depth=0, seen=None):
+    """every mutable object (list, dict, set, deque, Structure) reachable from obj through lists, tuples, dicts,
+    sets, frozensets, deques and Structure attributes, with the access path"""
+    seen = seen if seen is not None else set()
+    if id(obj) in seen or depth > 6:
+        return []
+    seen.add(id(obj))
+    out = []
+    if isinstance(obj, (list, dict, set, collections.deque, Structure)):
+        out.append((path, obj))
+    if isinstance(obj, Structure):
+        children = [(k, v) for k, v in obj.__dict__.items() if k not in dump.INTERNAL]
+    elif isinstance(obj, dict):
+        children = [("val", v) for v in obj.values()]
+    elif isinstance(obj, (list, tuple, set, frozenset, collections.deque)):
+        children = [(type(obj).__name__ + "-elem", v) for v in obj]
+    else:
+        children = []
+    for label, ch in children:
+        out += reachable_mutables(ch, path + ">" + label, depth + 1, seen)
+    return out
+
+
 def probe(build, ctx, depth=2):
     """build() -> fresh immutable instance.  Yields (accessor path, mutator label, changed?, raised?)"""
     x = build()
